@@ -52,6 +52,9 @@ pub struct RunEnv {
     pub real_rayon: bool,
     /// I/O fault seam: short reads/writes and EINTR on read(2)/write(2), seeded
     pub io_seed: Option<u64>,
+    /// hard I/O fault: (true = write/ENOSPC | false = read/EIO, after this many bytes
+    /// transferred from/to regular files in the scratch directory)
+    pub io_hard: Option<(bool, u64)>,
 }
 
 pub struct RunResult {
@@ -59,6 +62,8 @@ pub struct RunResult {
     pub code: Option<i32>,
     pub csv: Option<Vec<u8>>,
     pub stderr: String,
+    /// the hard I/O fault of `RunEnv::io_hard` was actually delivered to the program
+    pub hard_fired: bool,
 }
 
 pub fn binary(name: &str, real_rayon: bool) -> PathBuf {
@@ -88,6 +93,11 @@ pub fn run_binary(name: &str, cwd: &Path, files: &[PathBuf], extra: &[&str], out
     cmd.env_remove("VERIF_HASH_SEED");
     cmd.env_remove("LD_PRELOAD");
     cmd.env_remove("VERIF_IO_SEED");
+    cmd.env_remove("VERIF_IO_HARD");
+    cmd.env_remove("VERIF_IO_DIR");
+    cmd.env_remove("VERIF_IO_FIRED");
+    let fired = cwd.join(format!("{out_stem}.io-fired"));
+    let _ = std::fs::remove_file(&fired);
     if let Some(t) = env.threads {
         cmd.env("RAYON_NUM_THREADS", t.to_string());
     }
@@ -105,6 +115,12 @@ pub fn run_binary(name: &str, cwd: &Path, files: &[PathBuf], extra: &[&str], out
         cmd.env("VERIF_IO_SEED", io.to_string());
         cmd.env("LD_PRELOAD", verif_dir().join("target").join("libverif_getrandom.so"));
     }
+    if let Some((write, n)) = env.io_hard {
+        cmd.env("VERIF_IO_HARD", format!("{}:{n}", if write { 'w' } else { 'r' }));
+        cmd.env("VERIF_IO_DIR", cwd);
+        cmd.env("VERIF_IO_FIRED", &fired);
+        cmd.env("LD_PRELOAD", verif_dir().join("target").join("libverif_getrandom.so"));
+    }
     if let Some(h) = env.hash_seed {
         cmd.env("VERIF_HASH_SEED", h.to_string());
         cmd.env("LD_PRELOAD", verif_dir().join("target").join("libverif_getrandom.so"));
@@ -118,6 +134,7 @@ pub fn run_binary(name: &str, cwd: &Path, files: &[PathBuf], extra: &[&str], out
         code: o.status.code(),
         csv: std::fs::read(&out).ok(),
         stderr: String::from_utf8_lossy(&o.stderr).chars().take(600).collect(),
+        hard_fired: fired.exists(),
     }
 }
 
